@@ -568,6 +568,18 @@ func Run(r *vf.Run) {
 			continue
 		}
 		dir := filepath.Join(mod, "dg", fmt.Sprintf("p%04d", i))
+		if i%3 == 0 {
+			// every third package: the declarations of its first ordinary file sit below a //line directive that maps
+			// them to another .go file name (what cgo and code generators produce). The CLI reports such objects at
+			// their display position, while the per-variant verdicts are keyed by the physical one (seeded C17c).
+			for _, f := range p.Files {
+				if f.Kind == declgen.DeclNormal {
+					f.Header += fmt.Sprintf("\n\n//line mapped_%s:1000:1", f.Name)
+					r.Add("declgen_files_below_a_line_directive", 1)
+					break
+				}
+			}
+		}
 		if err := p.Write(dir); err != nil {
 			r.Inconclusive("scratch write: %v", err)
 			break
